@@ -132,10 +132,9 @@ pub fn exec(scn: &'static dyn Scenario, plan: &Plan, record: bool) -> Outcome {
             World::uninstall();
             let rec = w.finish();
             let stop = if rec.steps >= plan.sched.step_cap { Stop::StepCap } else { Stop::Quiescent };
-            if verdict.violation.is_none() && verdict.harness_error.is_none() {
-                if let Some(p) = rec.panics.first() {
-                    verdict = Verdict::fail("panic", panic_disc(p), p.clone());
-                }
+            // a panic in any task is the root cause of whatever else went wrong
+            if let Some(p) = rec.panics.first() {
+                verdict = Verdict::fail("panic", panic_disc(p), p.clone());
             }
             if stop == Stop::StepCap && verdict.violation.is_none() {
                 verdict.harness_error = Some(format!("step cap {} hit", plan.sched.step_cap));
